@@ -1,5 +1,599 @@
 package engines
 
-import "testing"
+import (
+	"bufio"
+	"bytes"
+	"encoding/json"
+	"fmt"
+	"os"
+	"os/exec"
+	"reflect"
+	"runtime"
+	"strconv"
+	"strings"
+	"testing"
+	"time"
 
-func fuzzDecode(f *testing.F) { f.Skip("not built yet") }
+	"google.golang.org/protobuf/encoding/protojson"
+	"google.golang.org/protobuf/encoding/protowire"
+	"google.golang.org/protobuf/proto"
+	"google.golang.org/protobuf/reflect/protoreflect"
+	"pgregory.net/rapid"
+
+	"verif/kit/model"
+)
+
+func init() {
+	register(&Engine{
+		ID:   "C06",
+		Desc: "Unmarshal is total: arbitrary bytes never crash, hang or exhaust the stack",
+		Rule: "arm mutate (per generated type): a valid well-typed stream pushed through 1..3 byte mutators (truncate, bit flip, splice with a second stream, overwrite/insert hostile varints {0,1,2^31-1,2^31,2^32,2^63,2^64-1, 11-byte}, change a wire type, stray end-group, wrap k levels deeper in a message-typed field, pure random bytes), <= 64 KiB; oracle: Unmarshal returns within the watchdog, no panic, allocation <= linear budget, and an accepted message survives Size, Marshal (both modes), Equal with its Clone, a deep Get/Range walk, String() and protojson.Marshal without panicking. arm depth (per recursive type, child process): nested payloads of depth d against UnmarshalOptions{RecursionLimit:r}, r in 1..8 and default, d in r-2..r+2; oracle: accept/reject exactly as dynamicpb; a crash of the child is a violation. Thorough adds native coverage-guided fuzzing (go test -fuzz, all cores) of the same target. Non-trivial: input that gets past the first tag (accepted with >= 1 populated field/unknown record, or rejected after byte 2); distinct by digest of (type, bytes).",
+		Run:  runC06, Replay: replayC06,
+		Assumptions: []string{"allocation budget: 64 KiB + 4*(len+1)*(largest reachable struct size+64), calibrated with a wide margin on the unchanged tree", "watchdog 20 s per call on inputs <= 64 KiB (normal: microseconds)"},
+	})
+}
+
+var hostileVarints = [][]byte{
+	{0x00}, {0x01}, {0x7f}, {0x80, 0x01},
+	{0xff, 0xff, 0xff, 0xff, 0x07},       // 2^31-1
+	{0x80, 0x80, 0x80, 0x80, 0x08},       // 2^31
+	{0xff, 0xff, 0xff, 0xff, 0x0f},       // 2^32-1
+	{0x80, 0x80, 0x80, 0x80, 0x10},       // 2^32
+	{0xff, 0xff, 0xff, 0xff, 0xff, 0xff, 0xff, 0xff, 0x7f},       // 2^63-1
+	{0x80, 0x80, 0x80, 0x80, 0x80, 0x80, 0x80, 0x80, 0x80, 0x01}, // 2^63
+	{0xff, 0xff, 0xff, 0xff, 0xff, 0xff, 0xff, 0xff, 0xff, 0x01}, // 2^64-1
+	{0xff, 0xff, 0xff, 0xff, 0xff, 0xff, 0xff, 0xff, 0xff, 0x7f}, // overflowing 10th byte
+	{0x80, 0x80, 0x80, 0x80, 0x80, 0x80, 0x80, 0x80, 0x80, 0x80, 0x01}, // 11 bytes
+	{0xfe, 0xff, 0xff, 0xff, 0xff, 0xff, 0xff, 0xff, 0xff, 0x01}, // -2 as int
+}
+
+func mutate(rt *rapid.T, ctx *Ctx, t *model.Type, b []byte, labels map[string]int) []byte {
+	b = append([]byte{}, b...)
+	n := rapid.IntRange(1, 3).Draw(rt, "nmut")
+	for i := 0; i < n; i++ {
+		switch rapid.IntRange(0, 8).Draw(rt, "mutator") {
+		case 0:
+			labels["mut:truncate"]++
+			b = b[:rapid.IntRange(0, len(b)).Draw(rt, "trunc")]
+		case 1:
+			if len(b) > 0 {
+				labels["mut:bitflip"]++
+				p := rapid.IntRange(0, len(b)-1).Draw(rt, "pos")
+				b[p] ^= 1 << uint(rapid.IntRange(0, 7).Draw(rt, "bit"))
+			}
+		case 2:
+			labels["mut:splice"]++
+			cfg := ctx.streamCfg(true, false)
+			o := cfg.GenStream(rt, t.Desc, 0)
+			i1 := rapid.IntRange(0, len(b)).Draw(rt, "i")
+			j := rapid.IntRange(0, len(o)).Draw(rt, "j")
+			b = append(append([]byte{}, b[:i1]...), o[j:]...)
+		case 3:
+			labels["mut:hostile-varint-overwrite"]++
+			h := rapid.SampledFrom(hostileVarints).Draw(rt, "hostile")
+			p := rapid.IntRange(0, len(b)).Draw(rt, "pos")
+			end := p + rapid.IntRange(0, 2).Draw(rt, "eat")
+			if end > len(b) {
+				end = len(b)
+			}
+			b = append(append(append([]byte{}, b[:p]...), h...), b[end:]...)
+		case 4:
+			if len(b) > 0 {
+				labels["mut:wiretype"]++
+				p := rapid.IntRange(0, len(b)-1).Draw(rt, "pos")
+				b[p] = b[p]&^7 | byte(rapid.IntRange(0, 7).Draw(rt, "wt"))
+			}
+		case 5:
+			labels["mut:stray-endgroup"]++
+			p := rapid.IntRange(0, len(b)).Draw(rt, "pos")
+			tag := protowire.AppendTag(nil, protowire.Number(rapid.IntRange(1, 40).Draw(rt, "num")), protowire.EndGroupType)
+			b = append(append(append([]byte{}, b[:p]...), tag...), b[p:]...)
+		case 6:
+			// wrap k levels deeper in some message-typed field of t
+			var mf []protoreflect.FieldDescriptor
+			for i := 0; i < t.Desc.Fields().Len(); i++ {
+				if fd := t.Desc.Fields().Get(i); fd.Message() != nil && !fd.IsMap() {
+					mf = append(mf, fd)
+				}
+			}
+			if len(mf) > 0 {
+				labels["mut:wrap-deeper"]++
+				fd := mf[rapid.IntRange(0, len(mf)-1).Draw(rt, "wrapfield")]
+				k := rapid.IntRange(1, 40).Draw(rt, "wrapdepth")
+				for j := 0; j < k && len(b) < 60000; j++ {
+					b = protowire.AppendBytes(protowire.AppendTag(nil, fd.Number(), protowire.BytesType), b)
+				}
+			}
+		case 7:
+			labels["mut:random-bytes"]++
+			b = rapid.SliceOfN(rapid.Byte(), 0, 40).Draw(rt, "random")
+		case 8:
+			// length-prefix attack: known bytes-typed field with a hostile length and a short body
+			fds := t.Desc.Fields()
+			if fds.Len() > 0 {
+				labels["mut:hostile-length-record"]++
+				fd := fds.Get(rapid.IntRange(0, fds.Len()-1).Draw(rt, "lenfield"))
+				rec := protowire.AppendTag(nil, fd.Number(), protowire.BytesType)
+				rec = append(rec, rapid.SampledFrom(hostileVarints).Draw(rt, "hostilelen")...)
+				rec = append(rec, rapid.SliceOfN(rapid.Byte(), 0, 6).Draw(rt, "body")...)
+				p := rapid.IntRange(0, len(b)).Draw(rt, "pos")
+				b = append(append(append([]byte{}, b[:p]...), rec...), b[p:]...)
+			}
+		}
+	}
+	if len(b) > 65536 {
+		b = b[:65536]
+	}
+	return b
+}
+
+func runC06(ctx *Ctx) {
+	if os.Getenv("VERIF_CHILD") == "depth" {
+		depthChild()
+		return
+	}
+	n := ctx.N(2500, 60000)
+	for _, t := range ctx.types() {
+		t := t
+		ctx.CheckRapid(string(t.Name), n, func(rt *rapid.T) *Case {
+			cfg := ctx.streamCfg(true, false)
+			b := cfg.GenStream(rt, t.Desc, 0)
+			labels := map[string]int{}
+			b = mutate(rt, ctx, t, b, labels)
+			ctx.MergeLabels(labels)
+			return &Case{Sub: "mutate", Type: string(t.Name), Bytes: hexs(b)}
+		}, func(c *Case) error { return checkDecodeTotal(ctx, c) })
+	}
+	runDepthArm(ctx)
+}
+
+var maxStructCache = map[protoreflect.FullName]uintptr{}
+
+// maxStruct returns the largest Go struct size among message types reachable
+// from t (generated types; others counted with a flat 256 bytes).
+func maxStruct(t *model.Type) uintptr {
+	if v, ok := maxStructCache[t.Name]; ok {
+		return v
+	}
+	var max uintptr = 256
+	seen := map[protoreflect.FullName]bool{}
+	var walk func(md protoreflect.MessageDescriptor)
+	walk = func(md protoreflect.MessageDescriptor) {
+		if seen[md.FullName()] {
+			return
+		}
+		seen[md.FullName()] = true
+		if tt := model.TypeByName(string(md.FullName())); tt != nil {
+			if s := tt.GoType.Elem().Size(); s > max {
+				max = s
+			}
+		}
+		for i := 0; i < md.Fields().Len(); i++ {
+			fd := md.Fields().Get(i)
+			if fd.IsMap() {
+				if m := fd.MapValue().Message(); m != nil {
+					walk(m)
+				}
+			} else if m := fd.Message(); m != nil {
+				walk(m)
+			}
+		}
+	}
+	walk(t.Desc)
+	maxStructCache[t.Name] = max
+	return max
+}
+
+type decodeResult struct {
+	err      error
+	panicked interface{}
+	stack    string
+	alloc    uint64
+	p        proto.Message
+}
+
+// decodeGuarded runs Unmarshal under a watchdog with panic capture and an
+// allocation measurement.
+func decodeGuarded(t *model.Type, b []byte, opts proto.UnmarshalOptions, measure bool) (res decodeResult, hung bool) {
+	done := make(chan decodeResult, 1)
+	go func() {
+		var r decodeResult
+		defer func() {
+			if p := recover(); p != nil {
+				r.panicked = p
+				buf := make([]byte, 4096)
+				r.stack = string(buf[:runtime.Stack(buf, false)])
+			}
+			done <- r
+		}()
+		r.p = t.New()
+		var m0, m1 runtime.MemStats
+		if measure {
+			runtime.ReadMemStats(&m0)
+		}
+		r.err = opts.Unmarshal(b, r.p)
+		if measure {
+			runtime.ReadMemStats(&m1)
+			r.alloc = m1.TotalAlloc - m0.TotalAlloc
+		}
+	}()
+	select {
+	case r := <-done:
+		return r, false
+	case <-time.After(20 * time.Second):
+		return decodeResult{}, true
+	}
+}
+
+func checkDecodeTotal(ctx *Ctx, c *Case) error {
+	t, err := mustType(c.Type)
+	if err != nil {
+		return err
+	}
+	b := unhex(c.Bytes)
+	pristine := append([]byte{}, b...)
+	measure := digest(c.Bytes)%4 == 0 // ReadMemStats stops the world: sample a quarter
+	res, hung := decodeGuarded(t, b, proto.UnmarshalOptions{}, measure)
+	if hung {
+		// re-run alone with a 10x budget before reporting
+		done := make(chan struct{})
+		go func() { _ = proto.Unmarshal(b, t.New()); close(done) }()
+		select {
+		case <-done:
+			ctx.Label("slow call (finished within 10x watchdog, not reported)")
+			return nil
+		case <-time.After(200 * time.Second):
+			return fmt.Errorf("Unmarshal did not return within 220 s on %d bytes", len(b))
+		}
+	}
+	if res.panicked != nil {
+		return fmt.Errorf("Unmarshal panicked: %v\n%s", res.panicked, trunc(res.stack, 1200))
+	}
+	if !bytes.Equal(b, pristine) {
+		return fmt.Errorf("Unmarshal modified its input")
+	}
+	if measure {
+		budget := uint64(64<<10) + 4*uint64(len(b)+1)*uint64(maxStruct(t)+64)
+		if res.alloc > budget {
+			return fmt.Errorf("Unmarshal allocated %d bytes for a %d-byte input (budget %d)", res.alloc, len(b), budget)
+		}
+		ctx.Label("allocation measured")
+	}
+	if res.err != nil {
+		ctx.Label("rejected")
+		if len(b) > 2 {
+			ctx.Nontrivial(c.Type, c.Bytes)
+		}
+		return nil
+	}
+	ctx.Label("accepted")
+	p := res.p
+	// an accepted message must be usable
+	if err := usable(ctx, t, b, p); err != nil {
+		return fmt.Errorf("message accepted by Unmarshal is not usable afterwards: %v", err)
+	}
+	if canonI(p) != "{}" {
+		ctx.Nontrivial(c.Type, c.Bytes)
+	}
+	return nil
+}
+
+// usable exercises exactly the post-conditions the property states for an
+// accepted message: it can be sized, marshalled (both modes), compared (with
+// itself, with an independent decoding of the same bytes, and with other
+// accepted messages obtained from one-bit variants of the input) and ranged
+// over (deep Get/Range walk) without panicking. String(), protojson and Clone
+// are exercised too, but a panic there is only counted (observed, not
+// asserted): the statement does not list them.
+func usable(ctx *Ctx, t *model.Type, b []byte, p proto.Message) (err error) {
+	step := "start"
+	defer func() {
+		if r := recover(); r != nil {
+			buf := make([]byte, 2048)
+			err = fmt.Errorf("%s panicked: %v\n%s", step, r, buf[:runtime.Stack(buf, false)])
+		}
+	}()
+	step = "proto.Size"
+	sz := proto.Size(p)
+	step = "proto.Marshal"
+	out, merr := proto.Marshal(p)
+	if merr == nil && len(out) != sz {
+		return fmt.Errorf("Size=%d but Marshal produced %d bytes", sz, len(out))
+	}
+	step = "deterministic Marshal"
+	if _, e := det.Marshal(p); e != nil && merr == nil {
+		return fmt.Errorf("deterministic Marshal fails (%v) where default succeeds", e)
+	}
+	step = "proto.Equal with itself"
+	_ = proto.Equal(p, p)
+	step = "proto.Equal with a second decoding of the same bytes"
+	q := t.New()
+	if e := proto.Unmarshal(b, q); e == nil {
+		_ = proto.Equal(p, q)
+	}
+	step = "deep Get/Range walk"
+	_ = canonP(p)
+	p.ProtoReflect().Range(func(protoreflect.FieldDescriptor, protoreflect.Value) bool { return true })
+	// compare with other accepted messages: one-bit variants of the input tail
+	for i := len(b) - 1; i >= 0 && i >= len(b)-6; i-- {
+		v := append([]byte{}, b...)
+		v[i] ^= 1
+		q := t.New()
+		if e := proto.Unmarshal(v, q); e == nil {
+			step = fmt.Sprintf("proto.Equal with the accepted message decoded from the input with bit 0 of byte %d flipped", i)
+			_ = proto.Equal(p, q)
+			_ = proto.Equal(q, p)
+		}
+	}
+	observe := func(name string, f func()) {
+		defer func() {
+			if r := recover(); r != nil && ctx != nil {
+				ctx.Label("observed, not asserted: " + name + " panics on an accepted message")
+			}
+		}()
+		f()
+	}
+	observe("String()", func() {
+		if s, ok := p.(fmt.Stringer); ok {
+			_ = s.String()
+		}
+	})
+	observe("protojson.Marshal", func() { _, _ = protojson.Marshal(p) })
+	observe("proto.Clone", func() { _ = proto.Clone(p) })
+	return nil
+}
+
+// ---- depth arm ---------------------------------------------------------
+
+// cyclePath finds fields leading from md back to md: a list of (field number,
+// isMap) hops; nil if md is not recursive.
+type hop struct {
+	num   protowire.Number
+	isMap bool
+}
+
+func cyclePath(md protoreflect.MessageDescriptor) []hop {
+	type node struct {
+		md   protoreflect.MessageDescriptor
+		path []hop
+	}
+	seen := map[protoreflect.FullName]bool{}
+	queue := []node{{md, nil}}
+	for len(queue) > 0 {
+		cur := queue[0]
+		queue = queue[1:]
+		fds := cur.md.Fields()
+		for i := 0; i < fds.Len(); i++ {
+			fd := fds.Get(i)
+			to := fd.Message()
+			isMap := fd.IsMap()
+			if isMap {
+				to = fd.MapValue().Message()
+			}
+			if to == nil {
+				continue
+			}
+			p := append(append([]hop{}, cur.path...), hop{fd.Number(), isMap})
+			if to.FullName() == md.FullName() {
+				return p
+			}
+			if !seen[to.FullName()] {
+				seen[to.FullName()] = true
+				queue = append(queue, node{to, p})
+			}
+		}
+	}
+	return nil
+}
+
+// nestedPayload builds an encoding of md whose innermost message sits
+// `levels` message levels below the top-level message, following path
+// cyclically.
+func nestedPayload(path []hop, levels int) []byte {
+	var b []byte
+	for i := levels - 1; i >= 0; i-- {
+		h := path[i%len(path)]
+		if h.isMap {
+			entry := protowire.AppendBytes(protowire.AppendTag(nil, 2, protowire.BytesType), b)
+			b = protowire.AppendBytes(protowire.AppendTag(nil, h.num, protowire.BytesType), entry)
+		} else {
+			b = protowire.AppendBytes(protowire.AppendTag(nil, h.num, protowire.BytesType), b)
+		}
+	}
+	return b
+}
+
+type depthCase struct {
+	Type   string `json:"type"`
+	Levels int    `json:"levels"`
+	Limit  int    `json:"limit"`
+}
+
+func runDepthArm(ctx *Ctx) {
+	var cases []depthCase
+	i := 0
+	for _, t := range model.Types() {
+		if ctx.OnlyFresh && !t.Fresh {
+			continue
+		}
+		if cyclePath(t.Desc) == nil {
+			continue
+		}
+		i++
+		if i%ctx.NShards != ctx.Shard {
+			continue
+		}
+		for r := 1; r <= 8; r++ {
+			for d := r - 2; d <= r+2; d++ {
+				if d >= 0 {
+					cases = append(cases, depthCase{string(t.Name), d, r})
+				}
+			}
+		}
+		for _, d := range []int{9990, 9998, 9999, 10000, 10001, 10010} {
+			cases = append(cases, depthCase{string(t.Name), d, 0})
+		}
+		if !ctx.Quick() {
+			cases = append(cases, depthCase{string(t.Name), 50000, 0}, depthCase{string(t.Name), 20000, 30000})
+		}
+	}
+	if len(cases) == 0 {
+		return
+	}
+	in, _ := json.Marshal(cases)
+	cmd := exec.Command(os.Args[0], "-test.run", "^TestVerif$", "-test.timeout", "600s")
+	cmd.Env = append(os.Environ(), "VERIF_CHILD=depth", "VERIF_OUT=", "VERIF_REPLAY=")
+	cmd.Stdin = bytes.NewReader(in)
+	var out bytes.Buffer
+	cmd.Stdout = &out
+	cmd.Stderr = &out
+	err := cmd.Run()
+	sc := bufio.NewScanner(&out)
+	sc.Buffer(make([]byte, 1<<20), 1<<20)
+	var current string
+	finished := false
+	for sc.Scan() {
+		ln := sc.Text()
+		switch {
+		case strings.HasPrefix(ln, "DEPTH-BEGIN "):
+			current = strings.TrimPrefix(ln, "DEPTH-BEGIN ")
+		case strings.HasPrefix(ln, "DEPTH-OK "):
+			ctx.Eval(1)
+			f := strings.Fields(ln)
+			ctx.Nontrivial("depth", f[1], f[2], f[3])
+			ctx.Label("depth arm: " + f[4])
+			current = ""
+		case strings.HasPrefix(ln, "DEPTH-BAD "):
+			ctx.Eval(1)
+			var dc depthCase
+			parts := strings.SplitN(strings.TrimPrefix(ln, "DEPTH-BAD "), " :: ", 2)
+			_ = json.Unmarshal([]byte(parts[0]), &dc)
+			ctx.Violation(&Case{Sub: "depth", Type: dc.Type, Args: map[string]string{"levels": strconv.Itoa(dc.Levels), "limit": strconv.Itoa(dc.Limit)}}, parts[1])
+			ctx.T.Fail()
+			current = ""
+		case ln == "DEPTH-DONE":
+			finished = true
+		}
+	}
+	if !finished {
+		// the child died: the case it announced last is the witness
+		var dc depthCase
+		if current != "" && json.Unmarshal([]byte(current), &dc) == nil {
+			ctx.Violation(&Case{Sub: "depth", Type: dc.Type, Args: map[string]string{"levels": strconv.Itoa(dc.Levels), "limit": strconv.Itoa(dc.Limit)}},
+				fmt.Sprintf("child process died while decoding nesting depth %d with RecursionLimit %d (err=%v): %s", dc.Levels, dc.Limit, err, trunc(tailStr(out.String(), 600), 600)))
+			ctx.T.Fail()
+		} else {
+			fmt.Printf("HARNESS-ERROR depth child failed before announcing a case: %v\n%s\n", err, trunc(out.String(), 2000))
+			ctx.T.Fail()
+		}
+	}
+}
+
+func tailStr(s string, n int) string {
+	if len(s) > n {
+		return s[len(s)-n:]
+	}
+	return s
+}
+
+// depthChild runs in a separate process: announces each case before running
+// it so that a stack overflow still leaves a witness.
+func depthChild() {
+	var cases []depthCase
+	if err := json.NewDecoder(os.Stdin).Decode(&cases); err != nil {
+		fmt.Println("HARNESS-ERROR depth child: bad input", err)
+		return
+	}
+	for _, dc := range cases {
+		js, _ := json.Marshal(dc)
+		fmt.Printf("DEPTH-BEGIN %s\n", js)
+		verdict, err := checkDepth(dc)
+		if err != nil {
+			fmt.Printf("DEPTH-BAD %s :: %s\n", js, strings.ReplaceAll(err.Error(), "\n", " | "))
+		} else {
+			fmt.Printf("DEPTH-OK %s %d %d %s\n", dc.Type, dc.Levels, dc.Limit, verdict)
+		}
+	}
+	fmt.Println("DEPTH-DONE")
+}
+
+func checkDepth(dc depthCase) (string, error) {
+	t, err := mustType(dc.Type)
+	if err != nil {
+		return "", err
+	}
+	path := cyclePath(t.Desc)
+	if path == nil {
+		return "not-recursive", nil
+	}
+	b := nestedPayload(path, dc.Levels)
+	opts := proto.UnmarshalOptions{RecursionLimit: dc.Limit}
+	d := t.NewD()
+	derr := opts.Unmarshal(b, d)
+	res, hung := decodeGuarded(t, b, opts, false)
+	if hung {
+		return "", fmt.Errorf("Unmarshal of %d nesting levels (%d bytes) did not return within the watchdog", dc.Levels, len(b))
+	}
+	if res.panicked != nil {
+		return "", fmt.Errorf("Unmarshal of %d nesting levels panicked: %v", dc.Levels, res.panicked)
+	}
+	if (derr == nil) != (res.err == nil) {
+		return "", fmt.Errorf("nesting %d levels with RecursionLimit %d: reference says %v, generated code says %v", dc.Levels, dc.Limit, derr, res.err)
+	}
+	if derr == nil {
+		if canonI(res.p) != canonD(d.ProtoReflect()) {
+			return "", fmt.Errorf("nesting %d levels: decoded value differs from reference", dc.Levels)
+		}
+		return "both-accept", nil
+	}
+	return "both-reject", nil
+}
+
+func replayC06(ctx *Ctx, c *Case) error {
+	switch c.Sub {
+	case "depth":
+		_, err := checkDepth(depthCase{c.Type, c.argInt("levels"), c.argInt("limit")})
+		return err
+	case "fuzz":
+		return fuzzOne(ctx, unhex(c.Bytes))
+	default:
+		return checkDecodeTotal(ctx, c)
+	}
+}
+
+// ---- native fuzz target --------------------------------------------------
+
+func fuzzOne(ctx *Ctx, data []byte) error {
+	types := model.Types()
+	if len(data) < 2 || len(types) == 0 {
+		return nil
+	}
+	t := types[(int(data[0])<<8|int(data[1]))%len(types)]
+	return checkDecodeTotal(ctx, &Case{Sub: "mutate", Type: string(t.Name), Bytes: hexs(data[2:])})
+}
+
+func fuzzDecode(f *testing.F) {
+	types := model.Types()
+	// seeds: empty input and hostile constants for a few types, plus valid encodings
+	for i := range types {
+		hdr := []byte{byte(i >> 8), byte(i)}
+		f.Add(append(append([]byte{}, hdr...), 0x0a, 0x00))
+		if i%7 == 0 {
+			for _, h := range hostileVarints {
+				f.Add(append(append(append([]byte{}, hdr...), 0x0a), h...))
+			}
+			f.Add(append(append([]byte{}, hdr...), 0x92, 0x01, 0x00))
+		}
+	}
+	ctx := newCtx(nil, "C06")
+	f.Fuzz(func(t *testing.T, data []byte) {
+		if len(data) > 1<<16 {
+			return
+		}
+		if err := fuzzOne(ctx, data); err != nil {
+			t.Fatalf("%v", err)
+		}
+	})
+}
+
+var _ = reflect.TypeOf
